@@ -2,7 +2,7 @@
    last_interesting survive from the previous run; the caller has put `file0` at the testcase
    path; run() itself resets `testcase_written` (reducer.py, first statement of run()). *)
 From Coq Require Import ZArith NArith List Bool.
-From Lithium Require Import PyBase TcRecord Testcase Driver.
+From Lithium Require Import PyBase TcRecord Testcase Driver TraceSpec.
 Import ListNotations.
 Open Scope Z_scope.
 
@@ -19,3 +19,23 @@ Definition run_on {S} (strat : strategy S) (verdict : verdict_t) (fuel : nat)
 
 Definition run_check_only_on (verdict : verdict_t) (tc0 : tcase) (w0 : world) : result :=
   map_world finally (check_only_main verdict tc0 (log EInit w0)).
+
+(* ---- the temp dir across runs on one object (C12): files are named by the prefix number *)
+Fixpoint expected_temp_p (tr : list event) : list (tname * bytes) :=
+  match tr with
+  | [] => []
+  | ETest _ p f Yes :: r => (Numbered p true, f) :: expected_temp_p r
+  | ETest _ p f No :: r => (Numbered p false, f) :: expected_temp_p r
+  | _ :: r => expected_temp_p r
+  end.
+
+(* the i-th test of a following run is numbered k0+i-1 and handed prefix number p0+i-1 *)
+Fixpoint numbered_from2 (k p : Z) (tests : list event) : Prop :=
+  match tests with
+  | [] => True
+  | e :: r => test_nums e = (k, p) /\ numbered_from2 (k + 1) (p + 1) r
+  end.
+
+(* every numbered file in the directory has a number below n *)
+Definition names_below (d : list (tname * bytes)) (n : Z) : Prop :=
+  Forall (fun e => match fst e with Numbered p _ => p < n | Original => True end) d.
